@@ -154,6 +154,17 @@ def outcome(path, mode, base_cols, base_ts_ok):
         # what tskit.load returned must satisfy every validity requirement: its tables must load again under a
         # freshly built index and describe the same trees as the loaded object did
         try:
+            # references judged here, not by the library's own gate (which is what let the object through)
+            nn, npop, nind, nsite, nmut = len(x.nodes), len(x.populations), len(x.individuals), len(x.sites), len(x.mutations)
+            for what, col, hi in (("nodes.population", x.nodes.population, npop), ("nodes.individual", x.nodes.individual, nind),
+                                  ("edges.parent", x.edges.parent, nn), ("edges.child", x.edges.child, nn),
+                                  ("mutations.site", x.mutations.site, nsite), ("mutations.node", x.mutations.node, nn),
+                                  ("mutations.parent", x.mutations.parent, nmut), ("migrations.node", x.migrations.node, nn),
+                                  ("migrations.source", x.migrations.source, npop), ("migrations.dest", x.migrations.dest, npop),
+                                  ("individuals.parents", x.individuals.parents, nind)):
+                lo = -1 if what in ("nodes.population", "nodes.individual", "mutations.parent", "individuals.parents") else 0
+                if len(col) and (int(col.min()) < lo or int(col.max()) >= hi):
+                    return "diff_bad", "loaded tree sequence has an out-of-range reference in %s" % what
             ts1 = x.tree_sequence()
             t2 = x.copy()
             t2.drop_index()
